@@ -510,4 +510,39 @@ def splitOnChar (sep : Char) : List Char → List (List Char)
     | [] => [[]]      -- unreachable
     | p :: ps => if c == sep then [] :: p :: ps else (c :: p) :: ps
 
+/-- `pathlib.PurePath.suffix` of a file name without directory separators: from the last dot on, unless that dot is the first or the last character -/
+def pathSuffix (name : List Char) : List Char :=
+  let n := name.length
+  match (List.range n).reverse.find? (fun i => name.getD i ' ' == '.') with
+  | some i => if 0 < i ∧ i < n - 1 then name.drop i else []
+  | none => []
+
+/-! ### Text and paths (`read_lines`, `get_sequence_files`) -/
+
+/-- `str.isspace()` of one character (CPython 3.12: the 29 code points with the Unicode white-space property or bidirectional type WS/B/S) -/
+def isSpace (c : Char) : Bool :=
+  let n := c.toNat
+  (9 ≤ n && n ≤ 13) || (28 ≤ n && n ≤ 32) || n == 133 || n == 160 || n == 5760 || (8192 ≤ n && n ≤ 8202)
+    || n == 8232 || n == 8233 || n == 8239 || n == 8287 || n == 12288
+
+/-- `s.strip()` -/
+def strStrip (s : List Char) : List Char := ((s.dropWhile isSpace).reverse.dropWhile isSpace).reverse
+
+/-- `s.rstrip(c)` for a one-character argument -/
+def strRstripChar (c : Char) (s : List Char) : List Char := (s.reverse.dropWhile (· == c)).reverse
+
+/-- `str(pathlib.PurePosixPath(s))`: the root is `//` for exactly two leading slashes, `/` for any other positive number; empty and `.`
+components go; no trailing slash; the empty path is `.` -/
+def pathStr (s : List Char) : List Char :=
+  let lead := (s.takeWhile (· == '/')).length
+  let root : List Char := if lead == 2 then ['/', '/'] else if lead ≥ 1 then ['/'] else []
+  let parts := (splitOnChar '/' s).filter (fun p => !p.isEmpty && p != ['.'])
+  let body := ['/'].intercalate parts
+  if root.isEmpty && parts.isEmpty then ['.'] else root ++ body
+
+/-- `str(Path(a) / b)` for `a` already in normal form: an absolute `b` replaces `a` -/
+def pathJoin (a b : List Char) : List Char :=
+  if b.head? == some '/' then pathStr b
+  else if a.getLast? == some '/' then pathStr (a ++ b) else pathStr (a ++ ['/'] ++ b)
+
 end GambitV.Py
